@@ -128,6 +128,18 @@ CHECKS = {
         ref="3/C14",
         technique="deterministic simulation: discrete-event key-distribution world with directory faults and a choice seam, reference resolution model, bounded liveness after heal",
     ),
+    "C16": dict(
+        level="exploration",
+        text=("hostile wire + Byzantine authenticated peer: worlds of well-formed keys (key / key set / callable) and registries "
+              "(default, all, non-strict, any-recipient) receive seeded hostile inputs of four classes - character-level wire "
+              "faults on valid tokens, grammar mutation of the header and of each of 21 members x 30 JSON values in every "
+              "position (validly signed / authenticated by the reference peer wherever possible), authenticated malformed "
+              "inner data (corrupt DEFLATE, non-JSON payloads, wrong-length CEK), JSON-serialisation dicts of the documented "
+              "shape with arbitrary contents - at the eight untrusted-input entry points; any escaping exception outside "
+              "JoseError / ValueError is a finding keyed by (entry, type, innermost joserfc frame)."),
+        ref="3/C16",
+        technique="deterministic simulation: seeded fault injection by a hostile wire and a Byzantine authenticated peer, exception-class invariant",
+    ),
     "C20": dict(
         level="exploration",
         text=("T = 2..32 real caller threads run operations from a 70-entry catalogue over one shared world (eagerly and lazily "
